@@ -224,8 +224,18 @@ def vector(enf, rules, default, names, as_object=False):
         enf.default_rule = _parser.parse_rule(rules[default])
     world.set_rules(enf, rules)
     vec = []
-    for n in names:
-        for roles in ROLESETS:
+    for i, n in enumerate(names):
+        for j, roles in enumerate(ROLESETS):
+            if as_object and (i + j) % 2:
+                # every other decision follows a call by ANOTHER caller (the
+                # complementary roles) that asked for an exception on denial
+                # - whether that one raises or returns is not this row's
+                # business
+                other = [r for r in ('x', 'y') if r not in roles]
+                try:
+                    enf.enforce(n, {}, {'roles': other}, do_raise=True)
+                except Exception:
+                    pass
             vec.append(world.decide(enf, n, {}, {'roles': list(roles)}))
     return vec
 
